@@ -223,6 +223,7 @@ pub struct CutReader<'a> {
     pos: usize,
     end: usize,
     cuts: &'a [usize],
+    next_cut: usize,
     interrupts: &'a [usize],
     decisions: usize,
     pub fill_calls: usize,
@@ -235,6 +236,7 @@ impl<'a> CutReader<'a> {
             pos: 0,
             end: 0,
             cuts,
+            next_cut: 0,
             interrupts,
             decisions: 0,
             fill_calls: 0,
@@ -261,11 +263,14 @@ impl BufRead for CutReader<'_> {
             if self.interrupts.contains(&d) {
                 return Err(io::Error::new(ErrorKind::Interrupted, "injected interrupt"));
             }
+            // cuts are sorted: advance a cursor instead of searching
+            while self.next_cut < self.cuts.len() && self.cuts[self.next_cut] <= self.pos {
+                self.next_cut += 1;
+            }
             let next = self
                 .cuts
-                .iter()
+                .get(self.next_cut)
                 .copied()
-                .find(|c| *c > self.pos)
                 .unwrap_or(self.data.len())
                 .min(self.data.len());
             self.end = next;
